@@ -147,3 +147,12 @@ CASES += [
         ("quantarhei/qm/liouvillespace/tdredfieldtensor.py", "    def _implementation(self, ham, sbi):\n", "    def _implementation(self, ham, sbi):\n        self.is_secular = False\n", 1),
         ("quantarhei/qm/liouvillespace/lindbladform.py", "    def _implementation(self, ham, sbi):\n", "    def _implementation(self, ham, sbi):\n        self.is_secular = False\n", 1)]},
 ]
+
+_SEC = "quantarhei/qm/liouvillespace/secular.py"
+_SEG = '        if self.data.ndim == 4:\n            N = self.data.shape[0]\n            for ii in range(N):\n                for jj in range(N):\n                    for kk in range(N):\n                        for ll in range(N):\n                            if not (((ii == jj) and (kk == ll)) \n                                or ((ii == kk) and (jj == ll))) :\n                                    self.data[ii,jj,kk,ll] = 0\n        else:  \n            N = self.data.shape[1]\n            for ii in range(N):\n                for jj in range(N):\n                    for kk in range(N):\n                        for ll in range(N):\n                            if not (((ii == jj) and (kk == ll)) \n                                or ((ii == kk) and (jj == ll))) :\n                                    self.data[:,ii,jj,kk,ll] = 0\n'
+CASES += [
+    {"name": "the two mask loops merged, time index forgotten (seeded change of round 7)", "kind": "mutant", "rule": "C01-C", "edits": [
+        (_SEC, _SEG, '        N = self.data.shape[-1]\n        for ii in range(N):\n            for jj in range(N):\n                for kk in range(N):\n                    for ll in range(N):\n                        if not (((ii == jj) and (kk == ll))\n                            or ((ii == kk) and (jj == ll))) :\n                                self.data[ii,jj,kk,ll] = 0\n', 1)]},
+    {"name": "the two mask loops merged with an ellipsis in front of the state indices", "kind": "twin", "edits": [
+        (_SEC, _SEG, '        N = self.data.shape[-1]\n        for ii in range(N):\n            for jj in range(N):\n                for kk in range(N):\n                    for ll in range(N):\n                        if not (((ii == jj) and (kk == ll))\n                            or ((ii == kk) and (jj == ll))) :\n                                self.data[...,ii,jj,kk,ll] = 0\n', 1)]},
+]
